@@ -31,6 +31,12 @@ CHECKS = {
  "C17": dict(cat="model_checking", engine="seq-exhaustive", tech="explicit walk of the complete PrimeSieve state machine (all 65536 blocks) + exhaustive enumeration of k and B1 ranges",
    text="The segmented sieve is a deterministic state machine: all 65536 states are visited through the real next() and each block is compared with an independent segmented sieve (every prime below 2^32 exactly once, in order), then two calls past the end; primes(k) for every k up to 4096/60000 and the 2^j edges; SmoothBase::new for every B1 in [4,6000/70000], around 65536 and the strategy-table values, with and without large blocks: every block factored back and every prime power below B1 covered; PM1Base likewise.",
    note="Trusted: plain Eratosthenes reference. B1 above 70000 only at the strategy-table values.", ref="3/C17"),
+ "C09": dict(cat="exploration", engine="seq-exhaustive", tech="bounded-exhaustive enumeration of width pairs x operand shapes with a self-certifying Bezout oracle, under a per-call watchdog",
+   text="For the 1024-bit (<= 1012 bits) and 512-bit (<= 500 bits) instantiations: all pairs of bit widths over word-boundary values and EVERY width within 48 bits of the type width x all pairs of operand shapes, every size gap 0..70 at 13 base widths, all Fibonacci pairs, multiples, huge-quotient pairs, zero/equal operands, the 13x13 product below 2^64. The oracle needs no reference gcd: d | a, d | b and u*a+v*b = d in 2560-bit arithmetic; big_gcd and inv_mod must agree. Non-termination within 20 s is a violation.",
+   note="Trusted: bnum arithmetic for the certificate. Silent about operand values outside the shape alphabet.", ref="3/C09"),
+ "C10": dict(cat="exploration", engine="seq-exhaustive", tech="bounded-exhaustive enumeration of moduli classes x transform sizes x operand lengths x structured operands against exact integer / schoolbook references",
+   text="Both convolution implementations on every transform size 2^1..2^10 (thorough 2^13) with all listed operand-length pairs, offsets and structured operand pairs, plus worst-case full-length operands up to 2^13 (thorough 2^16), for moduli on both sides of every Kronecker packing class edge and every word count; polynomial products (basic/Karatsuba/FFT) over all small length pairs straddling the thresholds, middle product, power-series quotient, from_roots, multi_eval, roots_eval against bnum schoolbook definitions.",
+   note="Trusted: i128 integer convolution, bnum. Operands are structured (small signed patterns x residue multipliers, fixed pseudo-random residues), not all residues. multi_eval is driven inside its documented precondition (polynomial length at most the power of two above the point count).", ref="3/C10"),
 }
 
 NOT_APPLICABLE = {
@@ -78,7 +84,7 @@ def main():
         "engines": [
             {"name": "seq-sweep", "path": "harness/src/sweep.rs", "serves_properties": ["C01", "C02", "C03"], "kind_free_text": "subprocess-sharded bounded-exhaustive driver of factor() with crash attribution"},
             {"name": "loom", "path": "lmharness/src/main.rs", "serves_properties": ["C04", "C05"], "kind_free_text": "loom (DPOR, preemption-bounded) exploration of the real code through the cfg-gated shim /repo/src/verif_shim.rs; one subprocess per scenario x bound; failing schedule saved as a loom checkpoint"},
-            {"name": "seq-exhaustive", "path": "harness/src/", "serves_properties": ["C06", "C07", "C08", "C17"], "kind_free_text": "in-process bounded-exhaustive enumerators with reference models (harness/src/refmodel.rs), parallel over 16 cores, panics captured per case"},
+            {"name": "seq-exhaustive", "path": "harness/src/", "serves_properties": ["C06", "C07", "C08", "C09", "C10", "C17"], "kind_free_text": "in-process bounded-exhaustive enumerators with reference models (harness/src/refmodel.rs), parallel over 16 cores, panics captured per case"},
             {"name": "seq-fault", "path": "harness/src/c05.rs", "serves_properties": ["C05"], "kind_free_text": "exhaustive abort-instant enumeration on the real factor()/classgroup()"},
         ],
         "checks": checks,
